@@ -140,19 +140,41 @@ func isArrayKey(v LNumber) bool {
 	return isInteger(v) && v < LNumber(int((^uint(0))>>1)) && v > LNumber(0) && v < LNumber(MaxArrayIndex)
 }
 
+// parseNumber reads a Lua 5.1 numeral: a decimal number with optional fraction and exponent, or a
+// 0x hexadecimal integer, optionally signed and surrounded by blanks. Nothing else is a number:
+// Go's base-0 integer syntax (0b, 0o, leading-zero octal, '_') and ParseFloat's inf, nan and
+// hexadecimal floats are not.
 func parseNumber(number string) (LNumber, error) {
-	var value LNumber
-	number = strings.Trim(number, " \t\n")
-	if v, err := strconv.ParseInt(number, 0, LNumberBit); err != nil {
-		if v2, err2 := strconv.ParseFloat(number, LNumberBit); err2 != nil {
-			return LNumber(0), err2
-		} else {
-			value = LNumber(v2)
-		}
-	} else {
-		value = LNumber(v)
+	number = strings.Trim(number, " \t\n\r\f\v")
+	digits := number
+	neg := false
+	if len(digits) > 0 && (digits[0] == '-' || digits[0] == '+') {
+		neg = digits[0] == '-'
+		digits = digits[1:]
 	}
-	return value, nil
+	if len(digits) > 2 && digits[0] == '0' && (digits[1] == 'x' || digits[1] == 'X') {
+		v, err := strconv.ParseUint(digits[2:], 16, LNumberBit)
+		if err != nil {
+			return LNumber(0), err
+		}
+		if neg {
+			return -LNumber(v), nil
+		}
+		return LNumber(v), nil
+	}
+	for i := 0; i < len(digits); i++ {
+		c := digits[i]
+		if !('0' <= c && c <= '9' || c == '.' || c == 'e' || c == 'E' || c == '+' || c == '-') {
+			return LNumber(0), &strconv.NumError{Func: "ParseFloat", Num: number, Err: strconv.ErrSyntax}
+		}
+	}
+	v, err := strconv.ParseFloat(number, LNumberBit)
+	if err != nil {
+		if nerr, ok := err.(*strconv.NumError); !ok || nerr.Err != strconv.ErrRange {
+			return LNumber(0), err
+		}
+	}
+	return LNumber(v), nil
 }
 
 func popenArgs(arg string) (string, []string) {
